@@ -38,6 +38,16 @@ def run(ctx, deep=False):
         for outage in ((9600,) if not thorough else (9600, 14400)):        # (the trace monitors are quadratic in the length of a run)
             items.append(("faults", [("net", "refuse"), ("open",), ("adv", 4), ("send", 1, "ok", "idem"), ("adv", outage), ("heal",)]))
             items.append(("faults", [("net", "accept"), ("open",), ("adv", 8), ("net", "refuse"), ("peer", "eof"), ("adv", outage), ("heal",)]))
+        # one loss noticed by two parties (the read loop and a sender whose flush is held up) while the application's connection callback
+        # is slow: the reconnection completes while the old read loop is still inside the "disconnected" notification
+        for slow in (2, 4, 8, 16):
+            for k in (0, 1, 2, 3):
+                for fail in ("reset", "timeout"):
+                    items.append(("faults", [("net", "accept"), ("subslow", slow), ("open",), ("adv", 8), ("block", 1), ("send", 1, "ok", "idem"), ("turn", k),
+                                             ("peer", fail), ("adv", 40), ("heal",)]))
+                    # ... slow on "disconnected" only (cleaning up takes the application longer than greeting a new connection)
+                    items.append(("faults", [("net", "accept"), ("subslow", slow * 2, 0), ("open",), ("adv", 8), ("block", 1), ("send", 1, "ok", "idem"), ("turn", k),
+                                             ("peer", fail), ("adv", 40), ("heal",)]))
         good = sockcheck.judge_family(ctx, "C07", items, MONITORS, gen=gen, nontrivial=_nontrivial)
         sockcheck.validate_against_model(ctx, good, "AT%d" % gen)
     ctx.assumptions += ["real half-open TCP detection and OS errors other than the injected ones are environment"]
